@@ -213,18 +213,30 @@ def tlc_must_pass(res, what):
     return res
 
 
-def judge(module, recs, wd, name=None, timeout=3000, heap="6g"):
-    """run a Judge_* module over records (each with an integer 'id'); returns (list of {id, clause}, TLCResult)"""
+def judge(module, recs, wd, name=None, timeout=3000, heap="6g", unjudgeable=None):
+    """run a Judge_* module over records (each with an integer 'id'); returns (list of {id, clause}, TLCResult).
+    Total verdicts also when an observation falls outside the judge's own domain (32-bit overflow on garbage numbers, an index
+    beyond a table): with `unjudgeable` = a clause name, the record TLC stopped at is reported under that clause and the remaining
+    records are judged without it (at most 25 times); on the unchanged tree this never happens (the judges pass)"""
     name = name or module
     jin, jout = os.path.join(wd, name + "_in.ndjson"), os.path.join(wd, name + "_out.ndjson")
-    write_ndjson(jin, recs)
-    if os.path.exists(jout):
-        os.remove(jout)
-    res = tlc(module, module + ".cfg", workers=1, env={"JUDGE_IN": jin, "JUDGE_OUT": jout}, timeout=timeout, heap=heap)
-    if not (res.rc == 0 and "JUDGED" in res.stdout):
-        raise MachineryError(module + " failed:\n" + "\n".join(res.stdout.splitlines()[-30:]))
-    bad = read_ndjson(jout) if os.path.exists(jout) else []
-    return bad, res
+    recs = list(recs)
+    extra = []
+    for _attempt in range(26):
+        write_ndjson(jin, recs)
+        if os.path.exists(jout):
+            os.remove(jout)
+        res = tlc(module, module + ".cfg", workers=1, env={"JUDGE_IN": jin, "JUDGE_OUT": jout}, timeout=timeout, heap=heap)
+        if res.rc == 0 and "JUDGED" in res.stdout:
+            bad = read_ndjson(jout) if os.path.exists(jout) else []
+            return bad + extra, res
+        at = re.findall(r"^/\\ i = (\d+)\s*$", res.stdout, flags=re.M)
+        if unjudgeable is None or not at or _attempt == 25 or int(at[-1]) >= len(recs):
+            raise MachineryError(module + " failed:\n" + "\n".join(res.stdout.splitlines()[-30:]))
+        k = int(at[-1])                      # TLC stopped while judging record k + 1 (Recs[i'] with i = k)
+        extra.append({"id": recs[k]["id"], "clause": unjudgeable})
+        del recs[k]
+    raise MachineryError(module + " failed")
 
 
 def sany(module):
